@@ -518,7 +518,18 @@ func (w *world17) step(op Op17, probe func(string)) (f *fail17, skipped bool) {
 		if s == nil {
 			return skip()
 		}
-		ns := s.Invert()
+		// the three public ways to get the negative of a source
+		var ns gozxing.LuminanceSource
+		switch mod(op.B, 4) {
+		case 1:
+			ns = gozxing.NewInvertedLuminanceSource(s)
+			probe("probe.invert_by_constructor")
+		case 2:
+			ns = gozxing.LuminanceSourceInvert(s)
+			probe("probe.invert_by_helper")
+		default:
+			ns = s.Invert()
+		}
 		if ns == nil {
 			return fail("nil", "Invert returned nil")
 		}
@@ -534,15 +545,20 @@ func (w *world17) step(op Op17, probe func(string)) (f *fail17, skipped bool) {
 			return skip()
 		}
 		ns, err := s.RotateCounterClockwise()
-		if m.kind != "goimage" {
-			if err == nil || s.IsRotateSupported() {
-				return fail("error", "a %s source claims to rotate (err=%v)", m.kind, err)
+		if m.kind != "goimage" && (err != nil || ns == nil) {
+			// a source kind without rotation says so, by error and by IsRotateSupported
+			if s.IsRotateSupported() {
+				return fail("error", "a %s source says it supports rotation and fails to rotate (err=%v)", m.kind, err)
 			}
 			probe("probe.rotate_unsupported_error")
 			return nil, false
 		}
 		if err != nil || ns == nil {
 			return fail("error", "RotateCounterClockwise failed: %v", err)
+		}
+		// whatever kind of source rotates: the result is the model's quarter turn
+		if m.kind != "goimage" {
+			probe("probe.rotation_of_another_source_kind")
 		}
 		if m.w != m.h {
 			probe("probe.rotate_non_square")
@@ -555,14 +571,16 @@ func (w *world17) step(op Op17, probe func(string)) (f *fail17, skipped bool) {
 				nd.px[j][i] = m.d.px[m.t+i][m.l+m.w-1-j]
 			}
 		}
-		w.src[c], w.mod[c] = ns, &viewModel{d: nd, w: m.h, h: m.w, inv: m.inv, kind: "goimage"}
+		w.src[c], w.mod[c] = ns, &viewModel{d: nd, w: m.h, h: m.w, inv: m.inv, kind: m.kind}
 	case "rotate45":
 		s := w.src[a]
 		if s == nil {
 			return skip()
 		}
-		if ns, err := s.RotateCounterClockwise45(); err == nil || ns != nil {
-			return fail("error", "RotateCounterClockwise45 did not report an error")
+		if ns, err := s.RotateCounterClockwise45(); err == nil && ns == nil {
+			return fail("error", "RotateCounterClockwise45 returned neither a source nor an error")
+		} else if err == nil {
+			probe("probe.rotate45_supported(not_modelled)")
 		}
 	case "getrow":
 		// B: 0 nil, 1 short, 2 exact, 3 long, 4 the slice returned by the previous call
@@ -1135,6 +1153,9 @@ func gen17(c *kit.Ctx) *Trace17 {
 				op.A = op.W - op.X + 1
 			}
 		case "rotate", "invert":
+			if k == "invert" {
+				op.B = r.Intn(4)
+			}
 			if r.Chance(1, 2) {
 				op.C = op.A
 				if k == "rotate" {
